@@ -25,7 +25,7 @@ INFO = dict(
          'pool max_watermark=1 via the public builder ReplaceRole() in the serial scenario, to force connection reuse'],
   assumptions=['A1-A5'],
 )
-EXPECT_COVERS = ['calls-issued-while-opening', 'mux-timeout-during-blocked-write', 'serial-stale-reply-after-timeout', 'serial-next-call-served', 'mux-out-of-order', 'mux-timeout-then-late-reply']
+EXPECT_COVERS = ['serial-timeout-during-blocked-write', 'calls-issued-while-opening', 'mux-timeout-during-blocked-write', 'serial-stale-reply-after-timeout', 'serial-next-call-served', 'mux-out-of-order', 'mux-timeout-then-late-reply']
 
 
 def jobs(tier):
@@ -35,7 +35,8 @@ def jobs(tier):
           dict(name='M-timeout-reuse', sc='muxreuse', cost=500, shards=4, shard_depth=2),
           dict(name='M-blocked-write-reuse', sc='muxblocked', cost=500, shards=4, shard_depth=2),
           dict(name='M-calls-during-open', sc='duringopen', stack='M', cost=300),
-          dict(name='T-calls-during-open', sc='duringopen', stack='T', cost=300)]
+          dict(name='T-calls-during-open', sc='duringopen', stack='T', cost=300),
+          dict(name='T-blocked-write-reuse', sc='serialblocked', cost=500, shards=4, shard_depth=2)]
 
 
 def judge_values(ars, script, issued):
@@ -120,6 +121,41 @@ def make_body(job):
       judge_values(ars, script, issued)
       seen = sorted(a[0] for (t, p, m, a, tag) in script.requests)
       check('duringopen.server-saw-every-argument', seen == sorted(issued))
+      check('no-greenlet-error', not vtime.ERRORS)
+      c.DispatcherClose()
+    elif sc == 'serialblocked':
+      # serial connection: the first call's write delivers part of the frame and then blocks; its deadline strikes
+      # meanwhile; the next call uses the same pooled connection slot
+      T = fresh_real('T', 0, 3, lo_strict=True)
+      W = fresh_real('write_blocks_for', 0, 6)
+      script = netm.Script(plan=lambda i, p: ('reply', 0))
+      e.net.endpoint('a', 1, peer=lambda s: netm.ThriftPeer(s, script), connect_delay=0.1)
+      from scales.thrift import Thrift
+      b = Thrift.NewBuilder(stacks.Hello.Iface).SetUri('tcp://a:1').SetTimeout(20)
+      c = b.ReplaceRole(SinkRole.Pool, WatermarkPoolSink.Builder(max_watermark=1)).Build()
+      conn = e.net.conns[0]
+      orig = conn.sendall
+      cut = choose('bytes_delivered_before_blocking', 3)      # none / half / all of the frame
+      def stalling(data):
+        data = bytes(data); h = (0, len(data) // 2, len(data))[cut]
+        if h: orig(data[:h])
+        gevent.sleep(W)
+        if h < len(data): orig(data[h:])
+      conn.sendall = stalling
+      a = c._dispatcher.DispatchMethodCall('hi', ('A',), {}, timeout=T)
+      hdecide(T < W)
+      g = fresh_real('second_call_at', 0, 10)
+      gevent.sleep(g)
+      b_ = c.hi_async('B')
+      gevent.sleep(30)
+      evA = stacks.events(a)
+      if evA and isinstance(evA[0][2], ScalesTimeout) and bool(T < W): cover('serial-timeout-during-blocked-write')
+      for i, (arg, ar) in enumerate([('A', a), ('B', b_)]):
+        ev = stacks.events(ar)
+        check('call%d.completed-once' % i, len(ev) == 1)
+        if len(ev) == 1 and ev[0][1] == 'value': check('call%d.own-reply' % i, ev[0][2] == 'echo:' + arg)
+      seen = [(m, tuple(x)) for (t, p, m, x, tag) in script.requests]
+      check('server.only-issued-requests', all(sx in [('hi', ('A',)), ('hi', ('B',))] for sx in seen))
       check('no-greenlet-error', not vtime.ERRORS)
       c.DispatcherClose()
     elif sc == 'muxblocked':
